@@ -40,17 +40,17 @@ FAMILIES = {
     },
     # constraint trees: all of depth <= 2 over three names, plus arithmetic/aggregate shapes
     'Ast': {
-        'quick':    dict(module='FMAstGen', consts=dict(ANames={'f1', 'f2', 'f3'}, BinOps=LOGIC_BIN, Depth=2, GrowSteps=0, WithArith=True),
+        'quick':    dict(module='FMAstGen', consts=dict(ANames={'f1', 'f2', 'f3'}, BinOps=LOGIC_BIN, Depth=2, GrowSteps=0, WithArith=True, Walks=0, Seed=0),
                          invariants=['L8_Forms', 'L_Shape'], defaults=False),
-        'thorough': dict(module='FMAstGen', consts=dict(ANames={'f1', 'f2', 'f3'}, BinOps=LOGIC_BIN, Depth=2, GrowSteps=0, WithArith=True),
+        'thorough': dict(module='FMAstGen', consts=dict(ANames={'f1', 'f2', 'f3'}, BinOps=LOGIC_BIN, Depth=2, GrowSteps=0, WithArith=True, Walks=0, Seed=0),
                          invariants=['L8_Forms', 'L_Shape'], defaults=False),
     },
     # random deeper trees (simulation)
     'AstDeep': {
-        'quick':    dict(module='FMAstGen', consts=dict(ANames={'f1', 'f2', 'f3'}, BinOps=LOGIC_BIN, Depth=1, GrowSteps=2, WithArith=False),
-                         invariants=['L_Shape'], defaults=False, simulate=dict(num=300, depth=3)),
-        'thorough': dict(module='FMAstGen', consts=dict(ANames={'f1', 'f2', 'f3', 'f4'}, BinOps=LOGIC_BIN, Depth=1, GrowSteps=2, WithArith=False),
-                         invariants=['L_Shape'], defaults=False, simulate=dict(num=5000, depth=3)),
+        'quick':    dict(module='FMAstGen', consts=dict(ANames={'f1', 'f2', 'f3'}, BinOps=LOGIC_BIN, Depth=1, GrowSteps=2, WithArith=False,
+                                                       Walks=300), invariants=['L_Shape'], defaults=False, walks_ast=True),
+        'thorough': dict(module='FMAstGen', consts=dict(ANames={'f1', 'f2', 'f3', 'f4'}, BinOps=LOGIC_BIN, Depth=1, GrowSteps=2, WithArith=False,
+                                                       Walks=5000), invariants=['L_Shape'], defaults=False, walks_ast=True),
     },
     'DecorAttr': {
         'quick':    dict(consts=dict(N=3, MaxKids=2, MinHi=1, Axes={'attr'}, AttrNames=['a1'],
@@ -236,7 +236,8 @@ FAMILIES.update({
     'Ref-Mix': {   # mixtures of every decoration, by simulation
         t: dict(consts=dict(N=6, MaxKids=3, MinHi=1, AllowStar=True, Axes={'abs', 'type', 'fcard', 'attr', 'ctc'},
                             Types={'Integer', 'Real', 'String'}, FCards={(0, 1), (2, 3), (1, -1), (2, 2)}, AttrNames=['a1', 'a2'],
-                            AttrVals=ATTR_VALS_UVL, MaxCtc=2, CtcDepth=1, CtcBinOps=UVL_SYNTAX_OPS, CtcMinFeatures=4, Fmt='uvl', MaxLevel=14),
+                            AttrVals=ATTR_VALS_UVL, MaxCtc=2, CtcDepth=1, CtcBinOps=UVL_SYNTAX_OPS, CtcMinFeatures=4, CtcArith=True,
+                            Fmt='uvl', MaxLevel=14),
                 invariants=tlc.GEN_INVARIANTS, simulate=dict(num=(150 if t == 'quick' else 1500), depth=14)) for t in ('quick', 'thorough')},
 })
 
@@ -250,7 +251,27 @@ def surface(dims, brokens, pool):
 B = ['0', '1']
 FAMILIES['Surface-uvl'] = surface({'quote': B, 'parens': B, 'merge': B, 'comments': B,
                                    'header': ['none', 'namespace', 'imports', 'include', 'all']},
-                                  ['bracket', 'operator', 'section', 'indent', 'badchar'], 12)
+                                  ['bracket', 'operator', 'section', 'indent', 'badchar'], 12)   # pool size 12
+
+FAMILIES['Surface-fide'] = surface({'order': B, 'optattr': ['implicit', 'explicit'], 'nary': B, 'extras': B, 'pretty': B, 'noctc': B},
+                                   ['unknownrule'], 10)
+FAMILIES['Surface-xml'] = surface({'order': B, 'pretty': B, 'relnames': B, 'cardfirst': B, 'setsingle': ['0']}, ['duplicate'], 10)
+FAMILIES['Surface-afm'] = surface({'parens': B, 'order': B}, ['relational'], 10)
+FAMILIES['Surface-glencoe'] = surface({'ids': B, 'order': B, 'extras': B, 'minmax': B, 'pretty': B}, ['unknowntype'], 10)
+FAMILIES.update({
+    'Ref-xml': {t: dict(consts=dict(N=5, MaxKids=3, MinHi=0, Axes={'ctc'}, MaxCtc=2, CtcDepth=1, CtcBinOps={'REQUIRES', 'EXCLUDES'},
+                                    CtcMinFeatures=4, MaxLevel=7),
+                        invariants=tlc.GEN_INVARIANTS, simulate=dict(num=300, depth=8)) for t in ('quick', 'thorough')},
+    'Ref-fide-Ctc3': {t: dict(consts=dict(N=2, MaxKids=1, MinHi=1, Axes={'ctc', 'abs'}, MaxCtc=1, CtcDepth=2, CtcBinOps={'AND', 'OR', 'IMPLIES'},
+                                          CtcMinFeatures=2, Fmt='fide'),
+                              invariants=tlc.GEN_INVARIANTS) for t in ('quick', 'thorough')},
+    'Ref-glencoe-Ctc': {t: dict(consts=dict(N=5, MaxKids=3, MinHi=0, Axes={'ctc'}, MaxCtc=2, CtcDepth=1, CtcBinOps=LOGIC_BIN,
+                                            CtcMinFeatures=4, Fmt='glencoe', MaxLevel=8),
+                                invariants=tlc.GEN_INVARIANTS, simulate=dict(num=300, depth=8)) for t in ('quick', 'thorough')},
+    'Ref-afm-Mix': {t: dict(consts=dict(N=5, MaxKids=3, MinHi=0, Axes={'ctc', 'attr'}, AttrNames=['a1'], AttrVals=ATTR_VALS_AFM, MaxCtc=2,
+                                        CtcDepth=1, CtcBinOps=ALL_OPS_NOT_XOR, CtcMinFeatures=3, Fmt='afm', MaxLevel=9),
+                            invariants=tlc.GEN_INVARIANTS, simulate=dict(num=300, depth=9)) for t in ('quick', 'thorough')},
+})
 
 _cache = {}
 
@@ -262,11 +283,19 @@ def generate(fam, tier, seed, workdir):
     spec = FAMILIES[fam][tier]
     if spec['consts'].get('Fmt'):
         spec = dict(spec, emit_all=False)
+    if spec.get('walks_ast'):
+        spec = dict(spec, walks=spec['consts']['Walks'], emit_all=False, consts=dict(spec['consts'], Seed=seed))
+    if spec.get('simulate') and spec.get('module', 'FM') == 'FM':     # seeded random walks, not -simulate
+        spec = dict(spec, walks=spec['simulate']['num'], emit_all=False,
+                    consts=dict(spec['consts'], Walks=spec['simulate']['num'], MaxLevel=spec['simulate']['depth'], Seed=seed))
+        spec.pop('simulate')
     cases, st = tlc.run_generator(workdir, spec['consts'], module=spec.get('module', 'FM'),
                                   defaults=spec.get('defaults', True), invariants=spec.get('invariants', ()),
                                   simulate=spec.get('simulate'), seed=seed,
                                   constraint=spec.get('constraint'), extra_defs=spec.get('extra_defs', ''),
                                   spec_name=spec.get('spec', 'Spec'), emit_name=spec.get('emit', 'Emit'),
                                   emit_all=spec.get('emit_all', True))
+    if spec.get('walks'):
+        st['simulate'] = {'random_walks': spec['walks']}
     _cache[key] = (cases, st)
     return cases, st
